@@ -180,6 +180,9 @@ def to_obs_trace(tid, scn, res, root_hint=None):
             exit_ = st if isinstance(st, int) else -1
             idx = res.get("index") or []
             newrows = sorted({tn(r["task"]) for r in idx if (r["task"], r["ts"]) not in rows0})
+            for r in idx:
+                if (r["task"], r["ts"]) not in rows0 and r["task"] in num:
+                    evs.append({"e": "Row", "t": tn(r["task"]), "ts": r["ts"]})
             evs.append({"e": "Return", "exit": exit_, "hang": hang, "stderr": e["stderr_kind"],
                         "failed": [tn(x) for x in e["failed"]], "skipped": [tn(x) for x in e["skipped"]],
                         "newrows": newrows, "aborted": "abort-reported" in e.get("banners", [])})
@@ -196,7 +199,7 @@ def to_obs_trace(tid, scn, res, root_hint=None):
         cfg["opts"].append([])
     cfg["n"] = len(cfg["kind"])
     # TLC integers are 32 bit: rebase large timestamps
-    big = [e["ts"] for e in evs if e["e"] == "Spawn" and e["ts"] > 10 ** 6]
+    big = [e["ts"] for e in evs if e["e"] in ("Spawn", "Row") and e["ts"] > 10 ** 6]
     for e in evs:
         if e["e"] == "Spawn":
             for d in e["deps"]:
@@ -210,6 +213,8 @@ def to_obs_trace(tid, scn, res, root_hint=None):
             return x - base if x > 10 ** 6 else x
 
         for e in evs:
+            if e["e"] == "Row":
+                e["ts"] = rb(e["ts"])
             if e["e"] == "Spawn":
                 e["ts"] = rb(e["ts"])
                 e["deps"] = [[d[0], rb(d[1])] for d in e["deps"]]
